@@ -67,6 +67,28 @@ func guard(f func()) (panicked string) {
 		if r := recover(); r != nil {
 			panicked = fmt.Sprintf("%v", r)
 			st := string(debug.Stack())
+			// whose code panicked?  the first frame after panic() that belongs to the library or to the
+			// harness decides: a panic raised by the harness' own code is a bug of the harness and must
+			// not be taken for an observation of the library
+			if s, ok := r.(string); !ok || !strings.HasPrefix(s, "harness") {
+				lines := strings.Split(st, "\n")
+				after := false
+				for _, l := range lines {
+					if strings.HasPrefix(l, "panic(") {
+						after = true
+						continue
+					}
+					if !after || strings.HasPrefix(l, "\t") {
+						continue
+					}
+					if strings.Contains(l, "wordZero/pkg/") {
+						break
+					}
+					if strings.HasPrefix(l, "main.") || strings.HasPrefix(l, "verif/harness/") {
+						panic(fmt.Sprintf("harness: panic in the harness' own code (%s): %v", strings.TrimSpace(l), r))
+					}
+				}
+			}
 			// keep the first library frame for the signature/explanation
 			for _, l := range strings.Split(st, "\n") {
 				if strings.Contains(l, "wordZero/pkg/") && strings.Contains(l, ".go:") {
